@@ -83,6 +83,175 @@ PIPELINES.append(Pipeline('U_DenseNodes_serialize_field_selection', units=MDUNIT
     replay=('c01_codec', lambda cex, o: ['dense', cex.field(cex.pointer_target('m_options') or cex.pointer_target('self'), 'add_metadata.m_options', 0), 1]),
     note='all 32 metadata subsets x history flag; protobuf builder calls are replaced by a ghost set of written fields'))
 
+# ---- DenseNodes::add_node: one entry per enabled column, and the node's run in keys_vals has the wire form k v k v ... 0 ------------------------
+def addnode_prelude(repo):
+    src = cx.preprocess(cx.strip_comments(open(repo + '/' + POUT).read()))
+    cols = [m[1] for m in cx.extract_members(src, 'DenseNodes')]
+    need = ['m_ids', 'm_versions', 'm_timestamps', 'm_changesets', 'm_uids', 'm_user_sids', 'm_visibles', 'm_lats', 'm_lons', 'm_tags']
+    for c in need:
+        if c not in cols:
+            raise ExtractError('DenseNodes::%s missing' % c)
+    return dn_prelude(repo).replace('struct DenseNodes { const struct pbf_output_options* m_options; };', '''
+/* std::vector<...> columns: only the length is kept; what is appended to m_tags is observed at the ghost position ghost_k */
+typedef struct vlog { size_t size; } vlog;
+struct DenseNodes { ''' + ' '.join('vlog %s;' % c for c in need) + ''' int m_stringtable; const struct pbf_output_options* m_options; };
+size_t ghost_k; int32_t ghost_at_k; _Bool ghost_k_seen;
+void vlog_push(vlog* v) { __CPROVER_assert(v->size < SIZE_MAX, "model: column length"); ++v->size; }
+void vlog_push_tag(vlog* v, int32_t x) { if (v->size == ghost_k) { ghost_at_k = x; ghost_k_seen = 1; } vlog_push(v); }
+/* StringTable::add: index of the string in the table; never 0 - entry 0 is reserved, 0 is the delimiter of keys_vals (the test suite pins add("") == 1) */
+int32_t ghost_sid;
+int32_t StringTable_add(int table, const char* s) __CPROVER_requires(1) __CPROVER_assigns(ghost_sid) __CPROVER_ensures(__CPROVER_return_value == ghost_sid && ghost_sid >= 1);
+size_t ghost_ntags;   /* number of tags of the node */
+/* user(), key(), value(): some NUL-terminated string (the empty one included) */
+const char* verif_any_string(void) __CPROVER_requires(1) __CPROVER_assigns() __CPROVER_ensures(__CPROVER_is_fresh(__CPROVER_return_value, 2) && __CPROVER_return_value[1] == 0);
+''') + 'typedef struct Node Node;\n'
+
+
+def addnode_rewrite(body, R):
+    rules = [(r'for \(const auto& tag : node\.tags\(\)\)', 'for (size_t verif_t = 0; verif_t < ghost_ntags; ++verif_t)'),
+             (r'm_tags\.push_back\(', 'vlog_push_tag(&m_tags, '),
+             (r'm_stringtable->add\(', 'StringTable_add(m_stringtable, ', '?')]
+    body = cx.apply_mustfire(body, rules, R, 'add_node')
+    # every other column: the value is not observed here (delta coding: see the lemmas above), only that one entry is appended
+    body, n = re.subn(r'\b(m_(?:ids|versions|timestamps|changesets|uids|user_sids|visibles|lats|lons))\.push_back\((.*)\);', lambda m: 'vlog_push(&%s); (void)(%s);' % (m.group(1), m.group(2)), body)
+    if n < 9:
+        raise ExtractError('add_node: expected a push_back for each of the nine columns, found %d' % n)
+    R.hit('unit_rewrite:column push_back', n)
+    return body
+
+
+HELPER_OPT = [(r'm_stringtable->add\(', 'StringTable_add(m_stringtable, ')]
+U_addnode = Unit(POUT, 'add_node', cls='DenseNodes', selftype='struct DenseNodes', params=['const Node* node_p'], helpers=True,
+                 pre=[addnode_rewrite, (r'm_stringtable->add\(', 'StringTable_add(m_stringtable, ', '?'),
+                      (r'm_delta_\w+\.update\(', '('), (r'static_cast<uint32_t>\(node\.timestamp\(\)\)', '0'), (r'node\.location\(\)\.[xy]\(\)', '0'),
+                      (r'\b(?:node|tag)\.(?:user|key|value)\(\)', 'verif_any_string()'), (r'\b(?:node|tag)\.(\w+)\(\)', r'0 /* \1 */'),
+                      (r'm_options->add_metadata\.(\w+)\(\)', r'metadata_options_\1(&m_options->add_metadata)'),
+                      (r'assert\(0 /\* version \*/ <= static_cast<std::size_t>\(std::numeric_limits<int32_t>::max\(\)\)\);', '/* version range: see U_add_meta_info_fields */;')])
+COL = lambda c, cond: 'self->%s.size == __CPROVER_old(self->%s.size) + ((%s) ? 1 : 0)' % (c, c, cond)
+MD = lambda b: '(self->m_options->add_metadata.m_options & %s) != 0' % b
+PIPELINES.append(Pipeline('U_DenseNodes_add_node', units=MDUNITS + [U_addnode], prelude=addnode_prelude, contracts={'DenseNodes_add_node': [
+    ('pre', 'requires', '__CPROVER_is_fresh(self, sizeof(*self)) && __CPROVER_is_fresh(self->m_options, sizeof(struct pbf_output_options)) && self->m_options->add_metadata.m_options <= md_all && '
+     'ghost_ntags <= 100000 && !ghost_k_seen && ' + ' && '.join('self->%s.size <= 100000000' % c for c in ('m_ids', 'm_versions', 'm_timestamps', 'm_changesets', 'm_uids', 'm_user_sids', 'm_visibles', 'm_lats', 'm_lons', 'm_tags'))),
+    ('post:exactly one entry is appended to each column that is enabled and none to the others (the columns stay aligned)', 'ensures',
+     ' && '.join([COL('m_ids', '1'), COL('m_lats', '1'), COL('m_lons', '1'), COL('m_versions', MD('md_version')), COL('m_timestamps', MD('md_timestamp')), COL('m_changesets', MD('md_changeset')),
+                  COL('m_uids', MD('md_uid')), COL('m_user_sids', MD('md_user')), COL('m_visibles', 'self->m_options->add_visible_flag')])),
+    ('post:the run of the node in keys_vals is two string ids per tag followed by one delimiter', 'ensures', 'self->m_tags.size == __CPROVER_old(self->m_tags.size) + 2 * ghost_ntags + 1'),
+    ('post:inside the run no entry is 0 (a 0 would end the node\'s tags for the reader and shift everything after it); the last entry is the 0 delimiter', 'ensures',
+     '!(ghost_k >= __CPROVER_old(self->m_tags.size) && ghost_k < self->m_tags.size) || (ghost_k_seen && (ghost_k == self->m_tags.size - 1 ? ghost_at_k == 0 : ghost_at_k >= 1))'),
+    ('frame', 'assigns', 'ghost_sid, ghost_at_k, ghost_k_seen, ' + ', '.join('self->%s.size' % c for c in ('m_ids', 'm_versions', 'm_timestamps', 'm_changesets', 'm_uids', 'm_user_sids', 'm_visibles', 'm_lats', 'm_lons', 'm_tags')))]},
+    loops={'DenseNodes_add_node': [['__CPROVER_assigns(verif_t, self->m_tags.size, ghost_sid, ghost_at_k, ghost_k_seen)',
+                                    '__CPROVER_loop_invariant(verif_t <= ghost_ntags && self->m_tags.size == __CPROVER_loop_entry(self->m_tags.size) + 2 * verif_t)',
+                                    '__CPROVER_loop_invariant((ghost_k_seen == 0 || ghost_k_seen == 1) && (!(ghost_k >= __CPROVER_loop_entry(self->m_tags.size) && ghost_k < self->m_tags.size) || (ghost_k_seen && ghost_at_k >= 1)))',
+                                    '__CPROVER_loop_invariant(ghost_k >= __CPROVER_loop_entry(self->m_tags.size) || ghost_k_seen == __CPROVER_loop_entry(ghost_k_seen))',
+                                    '__CPROVER_decreases(ghost_ntags - verif_t)']]},
+    replace=['StringTable_add', 'verif_any_string'], enforce='DenseNodes_add_node',
+    harness='void harness(void) { struct DenseNodes* d; const Node* n; DenseNodes_add_node(d, n); __CPROVER_assert(0, "canary"); }', noflags=['--conversion-check'],
+    replay=('c01_codec', lambda cex, o: ['densetags']),
+    note='any node with any number of tags, all option combinations; attribute values are not observed here (their coding is decided by the delta lemmas and the Info unit)'))
+
+# ---- the can_add() gate: the size estimate of a block accounts for every part of it that is not bounded by max_entities_per_block -----------------
+def pb_prelude(repo):
+    src = cx.preprocess(cx.strip_comments(open(repo + '/' + POUT).read()))
+    got = [m[1] for m in cx.extract_members(src, 'PrimitiveBlock')]
+    for need in ('m_pbf_primitive_group_data', 'm_stringtable', 'm_dense_nodes', 'm_type', 'm_count'):
+        if need not in got:
+            raise ExtractError('PrimitiveBlock::%s missing' % need)
+    return (cx.extract_const(repo, 'include/osmium/io/detail/pbf.hpp', 'max_uncompressed_blob_size') + cx.extract_anon_enum_const(repo, POUT, 'max_entities_per_block')
+            + cx.extract_anon_enum_const(repo, POUT, 'max_used_blob_size') + '''
+typedef struct vlog { size_t size; } vlog;
+struct DenseNodes { vlog m_ids; vlog m_tags; };
+typedef int PrimitiveGroup;
+struct PrimitiveBlock { size_t m_pbf_primitive_group_data; int m_stringtable; struct DenseNodes* m_dense_nodes; PrimitiveGroup m_type; int m_count; };
+/* ghost: the string table as it will be written: number of entries, and number of bytes (every entry needs at least one byte) */
+size_t ghost_st_entries, ghost_st_bytes;
+/* StringTable::size(): the number of entries */
+int32_t StringTable_size(const int* t) __CPROVER_requires(ghost_st_entries <= ghost_st_bytes && ghost_st_entries <= INT32_MAX) __CPROVER_assigns() __CPROVER_ensures(__CPROVER_return_value == (int32_t)ghost_st_entries);
+/* StringTable::byte_size(): at least the bytes of the serialised table (decided for StringTable::add in U_StringTable_add) */
+size_t StringTable_byte_size(const int* t) __CPROVER_requires(1) __CPROVER_assigns() __CPROVER_ensures(__CPROVER_return_value >= ghost_st_bytes && __CPROVER_return_value <= ((size_t)1 << 40));   /* an estimate, but not an absurd one (no wrap-around in the sum) */
+''')
+
+
+U_dsize = Unit(POUT, 'size', cls='DenseNodes', selftype='const struct DenseNodes', pre=[(r'm_ids\.size\(\)', 'm_ids.size'), (r'm_tags\.size\(\)', 'm_tags.size', '?')])
+U_pbsize = Unit(POUT, 'size', cls='PrimitiveBlock', selftype='const struct PrimitiveBlock',
+                pre=[(r'm_pbf_primitive_group_data\.size\(\)', 'm_pbf_primitive_group_data'), (r'm_stringtable\.(size|byte_size)\(\)', r'StringTable_\1(&m_stringtable)'),
+                     (r'm_dense_nodes->size\(\)', 'DenseNodes_size(m_dense_nodes)')])
+U_pbcount = Unit(POUT, 'count', cls='PrimitiveBlock', selftype='const struct PrimitiveBlock')
+U_canadd = Unit(POUT, 'can_add', cls='PrimitiveBlock', selftype='const struct PrimitiveBlock', params=['PrimitiveGroup type'])
+DSIZE_CONTRACT = [('pre', 'requires', '__CPROVER_rw_ok(self, sizeof(*self)) && self->m_ids.size <= 100000000 && self->m_tags.size <= 1000000000'),
+                  ('post:the tags of dense nodes (not bounded by the number of entities in a block) are accounted for, at one byte per id at least', 'ensures', '__CPROVER_return_value >= self->m_tags.size'),
+                  ('post:ids and coordinates are accounted for', 'ensures', '__CPROVER_return_value >= 3 * self->m_ids.size'),
+                  ('post:it is an estimate of the right order (callers add it up: no wrap-around)', 'ensures', '__CPROVER_return_value <= 32 * self->m_ids.size + 8 * self->m_tags.size'),
+                  ('frame', 'assigns', '')]
+PBSIZE_CONTRACT = [('pre', 'requires', '__CPROVER_rw_ok(self, sizeof(*self)) && self->m_pbf_primitive_group_data <= (1u << 30) && ghost_st_entries <= ghost_st_bytes && ghost_st_bytes <= (1u << 30) && '
+                    '(self->m_dense_nodes == 0 || (__CPROVER_rw_ok(self->m_dense_nodes, sizeof(struct DenseNodes)) && self->m_dense_nodes->m_ids.size <= 100000000 && self->m_dense_nodes->m_tags.size <= 1000000000))'),
+                   ('post:the estimate covers the group data, the BYTES of the string table and the tags of the dense nodes - the parts of a block whose size is not bounded by the entity count', 'ensures',
+                    '__CPROVER_return_value >= self->m_pbf_primitive_group_data + ghost_st_bytes + (self->m_dense_nodes ? self->m_dense_nodes->m_tags.size : 0)'),
+                   ('frame', 'assigns', '')]
+tail1 = ' __CPROVER_assert(0, "canary"); }'
+PIPELINES.append(Pipeline('U_DenseNodes_size', units=[U_dsize], prelude=pb_prelude, contracts={'DenseNodes_size': [(l, k, t.replace('__CPROVER_rw_ok(self', '__CPROVER_is_fresh(self')) for l, k, t in DSIZE_CONTRACT]},
+                          enforce='DenseNodes_size', harness='void harness(void) { const struct DenseNodes* d; DenseNodes_size(d);' + tail1, replay=('c01_codec', lambda cex, o: ['blocksize'])))
+PIPELINES.append(Pipeline('U_PrimitiveBlock_size', units=[U_dsize, U_pbsize], prelude=pb_prelude, contracts={'DenseNodes_size': DSIZE_CONTRACT, 'PrimitiveBlock_size': [
+    (l, k, t.replace('__CPROVER_rw_ok(self,', '__CPROVER_is_fresh(self,').replace('__CPROVER_rw_ok(self->m_dense_nodes,', '__CPROVER_is_fresh(self->m_dense_nodes,')) for l, k, t in PBSIZE_CONTRACT]},
+    replace=['DenseNodes_size', 'StringTable_size', 'StringTable_byte_size'], enforce='PrimitiveBlock_size',
+    harness='void harness(void) { const struct PrimitiveBlock* b; PrimitiveBlock_size(b);' + tail1, replay=('c01_codec', lambda cex, o: ['blocksize']),
+    note='finding F9: the estimate used the NUMBER of string table entries; 8000 ways with six distinct 1000-byte tag values gave a 48 MB block that the reader rejects'))
+PIPELINES.append(Pipeline('U_PrimitiveBlock_can_add', units=[U_dsize, U_pbsize, U_pbcount, U_canadd], prelude=pb_prelude, contracts={'PrimitiveBlock_size': PBSIZE_CONTRACT, 'PrimitiveBlock_can_add': [
+    ('pre', 'requires', PBSIZE_CONTRACT[0][2].replace('__CPROVER_rw_ok(self,', '__CPROVER_is_fresh(self,').replace('__CPROVER_rw_ok(self->m_dense_nodes,', '__CPROVER_is_fresh(self->m_dense_nodes,')),
+    ('post:another object is admitted only to a block of its own type that has room for an entity and whose unbounded parts are below 95 per cent of the blob limit', 'ensures',
+     '!__CPROVER_return_value || (type == self->m_type && self->m_count < max_entities_per_block && '
+     'self->m_pbf_primitive_group_data + ghost_st_bytes + (self->m_dense_nodes ? self->m_dense_nodes->m_tags.size : 0) < max_used_blob_size)'),
+    ('frame', 'assigns', '')]}, replace=['PrimitiveBlock_size'], enforce='PrimitiveBlock_can_add',
+    harness='void harness(void) { const struct PrimitiveBlock* b; PrimitiveGroup t; PrimitiveBlock_can_add(b, t); __CPROVER_assert(0, "canary"); }', replay=('c01_codec', lambda cex, o: ['blocksize']),
+    note='what the gate cannot promise: a single object larger than the remaining 5 per cent still overflows the block (not decided)'))
+
+# ---- StringTable::add: index == position in the store, never 0 for a new string, bytes accounted ----------------------------------------------
+ST = 'include/osmium/io/detail/string_table.hpp'
+
+
+def st_prelude(repo):
+    src = cx.preprocess(cx.strip_comments(open(repo + '/' + ST).read()))
+    got = [m[1] for m in cx.extract_members(src, 'StringTable')]
+    if got != ['m_strings', 'm_index', 'm_size', 'm_byte_size']:
+        raise ExtractError('StringTable data members changed: %s' % got)
+    return (cx.extract_const(repo, 'include/osmium/io/detail/pbf.hpp', 'max_uncompressed_blob_size') + cx.extract_anon_enum_const(repo, ST, 'max_entries').replace('static_cast<int32_t>(max_uncompressed_blob_size)', '((int32_t)max_uncompressed_blob_size)')
+            + cx.extract_anon_enum_const(repo, ST, 'entry_overhead') + '''
+struct StringTable { int m_strings; int m_index; int32_t m_size; size_t m_byte_size; };
+size_t ghost_n;              /* ghost: length of the string */
+int32_t ghost_found;         /* ghost: index under which the string is in the hash index already, 0 if it is not */
+size_t ghost_store_count;    /* ghost: number of strings in the StringStore (the writer emits them in this order: position k gets index k) */
+size_t ghost_store_bytes;    /* ghost: bytes of the serialised table: every string plus at most entry_overhead bytes of tag and length */
+/* m_index.find(s): the index stored for an equal string, or nothing */
+int32_t verif_index_find(const int* index, const char* s) __CPROVER_requires(1) __CPROVER_assigns() __CPROVER_ensures(__CPROVER_return_value == ghost_found);
+/* StringStore::add(s): appends a copy of the string and returns it */
+const char* StringStore_add(int* store, const char* s) __CPROVER_requires(__CPROVER_r_ok(s, ghost_n + 1) && s[ghost_n] == 0) __CPROVER_assigns(ghost_store_count, ghost_store_bytes)
+  __CPROVER_ensures(ghost_store_count == __CPROVER_old(ghost_store_count) + 1 && ghost_store_bytes == __CPROVER_old(ghost_store_bytes) + ghost_n + entry_overhead &&
+                    __CPROVER_is_fresh(__CPROVER_return_value, ghost_n + 1) && __CPROVER_return_value[ghost_n] == 0);
+int32_t ghost_put;           /* ghost: index entered into the hash index for the new string */
+void verif_index_put(int* index, const char* s, int32_t v) __CPROVER_requires(1) __CPROVER_assigns(ghost_put) __CPROVER_ensures(ghost_put == v);
+/* ghost_n is DEFINED as the length of the string (of s and of its copy in the store) */
+size_t verif_strlen(const char* s) __CPROVER_requires(__CPROVER_r_ok(s, ghost_n + 1) && s[ghost_n] == 0) __CPROVER_assigns() __CPROVER_ensures(__CPROVER_return_value == ghost_n);
+''')
+
+
+U_stadd = Unit(ST, 'add', cls='StringTable',
+               pre=[(r'const auto f = m_index\.find\(s\);', 'const int32_t f = verif_index_find(&m_index, s);'), (r'if \(f != m_index\.end\(\)\) \{\s*return f->second;', 'if (f != 0) { return f;'),
+                    (r'm_strings\.add\(s\)', 'StringStore_add(&m_strings, s)'), (r'm_index\[cs\] = \+\+m_size;', 'verif_index_put(&m_index, cs, ++m_size);'), (r'std::strlen\(', 'verif_strlen(')])
+PIPELINES.append(Pipeline('U_StringTable_add', units=[U_stadd], prelude=st_prelude, contracts={'StringTable_add': [
+    ('pre:the table invariant: entry k of the store has index k, index 0 is the reserved empty string, the byte count covers the serialised table', 'requires',
+     'verif_exc == 0 && __CPROVER_is_fresh(self, sizeof(*self)) && ghost_n <= 100000 && __CPROVER_is_fresh(s, ghost_n + 1) && s[ghost_n] == 0 && self->m_size >= 0 && self->m_size <= max_entries && '
+     'ghost_store_count == (size_t)self->m_size + 1 && ghost_found >= 0 && ghost_found <= self->m_size && self->m_byte_size >= ghost_store_bytes && self->m_byte_size <= ((size_t)1 << 40) && ghost_store_bytes <= ((size_t)1 << 40) && '
+     '(ghost_n > 0 || 1)'),
+    ('post:a string that is in the table already gets its old index and nothing changes', 'ensures', 'ghost_found == 0 || (verif_exc == 0 && __CPROVER_return_value == ghost_found && self->m_size == __CPROVER_old(self->m_size) && ghost_store_count == __CPROVER_old(ghost_store_count))'),
+    ('post:a new string is appended to the store and gets the index of its position there, which is never 0 (0 is the delimiter of keys_vals)', 'ensures',
+     'ghost_found != 0 || (ghost_store_count == __CPROVER_old(ghost_store_count) + 1 && ghost_put == self->m_size && (size_t)self->m_size == ghost_store_count - 1 && self->m_size >= 1 && (verif_exc != 0 || __CPROVER_return_value == self->m_size))'),
+    ('post:the invariant holds again: the byte count the block size estimate uses covers the serialised table', 'ensures', 'ghost_store_count == (size_t)self->m_size + 1 && self->m_byte_size >= ghost_store_bytes'),
+    ('post:only a table with too many entries is refused', 'ensures', 'verif_exc == 0 || (verif_exc == EXC_pbf_error && self->m_size > max_entries)'),
+    ('frame', 'assigns', 'verif_exc, self->m_size, self->m_byte_size, ghost_store_count, ghost_store_bytes, ghost_put')]},
+    replace=['verif_index_find', 'StringStore_add', 'verif_index_put', 'verif_strlen'], enforce='StringTable_add',
+    harness='void harness(void) { struct StringTable* t; const char* s; StringTable_add(t, s); __CPROVER_assert(verif_exc != 0, "canary:normal"); __CPROVER_assert(verif_exc == 0, "canary:throw"); }',
+    canaries=['canary:normal', 'canary:throw'], replay=('c01_codec', lambda cex, o: ['densetags']),
+    note='relative to contracts for the hash index and the string store; the index written by the encoders is the position the reader resolves'))
+
 # ---- PBF non-dense objects: the Info message carries exactly the enabled metadata with the object's values ---------------------------------
 OBJ = 'include/osmium/osm/object.hpp'
 ITEM = 'include/osmium/memory/item.hpp'
@@ -147,7 +316,11 @@ ASSUMPTIONS = ['machine arithmetic wraps in the delta coders (C++ calls the over
 NOT_DECIDED = ['whole-file round trip through Writer/Reader (threads, compression, protobuf assembly)', 'option matrix as executions', 'block size accounting (recorded finding F9)', 'XML attribute formatting']
 LEVEL_TEXT = ('Proof for codec pairs: one step of delta encoding followed by delta decoding returns the value and keeps both states equal, for every instantiation pair the PBF writer and reader use '
               '(including the mixed-width uid pair), under wrap-around arithmetic; the dense-node serialiser writes exactly the enabled metadata columns and the visible flags exactly when the history '
-              'flag is set, for all 64 option combinations; the Info message of ways, relations and non-dense nodes carries exactly the enabled fields with the attribute values of the object; the PBF header bounding box conversion (integer arithmetic since the F22 repair) is checked against the reader for every valid coordinate. Other pairs are decided under C13 '
+              'flag is set, for all 64 option combinations; the Info message of ways, relations and non-dense nodes carries exactly the enabled fields with the attribute values of the object; the PBF header bounding box conversion (integer arithmetic since the F22 repair) is checked against the reader for every valid coordinate; '
+              'DenseNodes::add_node (with any helper it is split into) appends exactly one entry to every enabled column and, for any number of tags, a run of two non-zero string ids per tag closed by one 0 to keys_vals; '
+              'StringTable::add returns for a new string the index of its position in the store (never 0), for a known string its old index, and keeps the byte count of the serialised table; '
+              'the block size estimate behind can_add() covers every part of a block that is not bounded by the entity count (group data, bytes of the string table, dense node tags), and can_add() admits an object only below 95 per cent of the blob limit. '
+              'Other pairs are decided under C13 '
               '(numbers, coordinates), C14 (strings) and C02 (PBF metadata ranges, lat/lon with block parameters).')
-LEVEL_NOTE = ('Trusted: CBMC, extraction rules, protozero, compression libraries, expat. The statement is about whole files; only leaf codec pairs are decided. Not decided: Writer/Reader pipeline, option matrix as executions, '
-              'block size accounting, XML formatting.')
+LEVEL_NOTE = ('Trusted: CBMC, extraction rules, protozero, compression libraries, expat. The statement is about whole files; only leaf codec pairs are decided. Assumed: contracts of the hash index and string store inside StringTable. Not decided: Writer/Reader pipeline, option matrix as executions, '
+              'a single object larger than the 5 per cent reserve of a block, XML formatting.')
